@@ -40,6 +40,7 @@ def check(model: Model, rep: Report, tier: str):
     n2_n3(model, rep, tier)
     n4(model, rep)
     n5(model, rep)
+    n6(model, rep)
 
 
 def atoms_of_cond(t: Term) -> set:
@@ -516,3 +517,84 @@ def n5(model: Model, rep: Report):
             ok = ok and (lk == qmap or (lk is not None and lk[0] == "var" and lk[3] == ("dict", ())))
         rep.check(ok, "C14.N5", "apply_noise", a.loc, found=show(v), required="factory.construct(circuit, IndexedNoiseSettings(noise_settings, qubit_index_map))", what="the given index map / settings are not what the dresser uses", detail="apply")
     rep.floor("return paths of apply_noise", n, 1)
+
+
+# ---------------------------------------------------------------------------------------------
+def n6(model: Model, rep: Report):
+    rep.rule("C14.N6", "extract_instruction_targets: annotations (DETECTOR, OBSERVABLE_INCLUDE, SHIFT_COORDS) have no qubit targets; otherwise every token after the "
+                       "instruction name, as int, in order; extract_all_targets: every target of every instruction of the circuit, as a sorted list without duplicates")
+    from ..listflow import as_single_comp
+    f = model.function("intrf_noise_factory", "extract_instruction_targets")
+    ev = Evaluator(model, inline_methods=False)
+    ps = [p for p in PathEnumerator(ev).function_paths(f) if p.exit == "return"]
+    ins = sym(f.param_names[0])
+    name = ("attr", ins, "name")
+    ann = ("DETECTOR", "OBSERVABLE_INCLUDE", "SHIFT_COORDS")
+    bad = []
+    n_tok = 0
+    for p in ps:
+        for a in ann:
+            mp = {t_cmp("==", name, ("const", x)): (TRUE if x == a else FALSE) for x in ann}
+            c = subst(p.cond, mp)
+            others = [x for x in atoms_of(c)]
+            if c == TRUE and p.value != ("list", ()):
+                bad.append(f"{a} is given targets {show(p.value)[:60]}")
+        mp = {t_cmp("==", name, ("const", x)): FALSE for x in ann}
+        c = subst(p.cond, mp)
+        extra = [x for x in atoms_of(c) if x[0] == "eq" and name in x]
+        if c == FALSE:
+            continue
+        comp = as_single_comp(p, p.value)
+        while comp[0] == "var" and comp[3][0] == "comp":
+            comp = comp[3]
+        ok = comp[0] == "comp" and comp[1] == "list" and len(comp[3]) == 1 and not comp[3][0][1]
+        if ok:
+            dom = comp[3][0][0]
+            while dom[0] == "var":
+                dom = dom[3]
+            bs = subterms(comp[2], lambda x: x[0] == "bound")
+            ok = comp[2] == ("call", "int", (bs[0],), ()) if len(bs) == 1 else False
+            tokens = ("call", ("attr", ("call", "str", (ins,), ()), "split"), (), ())
+            ok = ok and dom == ("slice", tokens, lin({}, Fraction(1)), NONE, NONE)
+        n_tok += 1
+        if not ok:
+            bad.append(f"gate targets are {show(p.value)[:100]}")
+    if n_tok == 0:
+        raise AnalysisError("extract_instruction_targets: no path produces targets")
+    rep.check(not bad, "C14.N6", "extract_instruction_targets", f.loc, found="; ".join(bad) or "annotations -> []; gates -> [int(t) for t in str(instruction).split()[1:]]",
+              required="[] for annotations, every token after the name as int otherwise", what="the qubits an instruction acts on are read wrongly (noise lands on other qubits, or a measurement is dropped): " + "; ".join(bad), detail="targets")
+    g = model.function("intrf_noise_factory", "extract_all_targets")
+    ps = [p for p in PathEnumerator(Evaluator(model, inline_methods=False)).function_paths(g) if p.exit == "return"]
+    circ = sym(g.param_names[0])
+    bad = []
+    for p in ps:
+        v = p.value
+        while v is not None and v[0] == "call" and v[1] in ("sorted", "list") and len(v[2]) == 1:
+            srt = True
+            v = v[2][0]
+        is_sorted = p.value is not None and find_calls(p.value, "sorted") or (p.value is not None and p.value[0] == "call" and p.value[1] == "sorted") or (p.value is not None and p.value[0] == "bag")
+        if not (p.value is not None and (p.value[0] == "call" and p.value[1] == "sorted")):
+            bad.append("the result is not sorted")
+        loops = [e for e in p.events if e.kind == "loop"]
+        if v is not None and v[0] == "var" and loops:
+            L = loops[0]
+            ok = L.term == circ
+            inner_ok = False
+            for bp in L.extra["paths"]:
+                for e in bp.events:
+                    if e.kind == "loop" and e.term is not None and e.term[0] == "call" and e.term[1] == ("fn", "intrf_noise_factory.extract_instruction_targets") \
+                            and (list(e.term[2]) + [x for _, x in e.term[3]]) == [("bound", "for", L.node.lineno, show(L.term))]:
+                        tb = ("bound", "for", e.node.lineno, show(e.term))
+                        adds = [c for ibp in e.extra["paths"] for ev_ in ibp.events if ev_.kind == "effect" for c in find_calls(ev_.term, "add") if c[2] == (tb,) and not atoms_of(ibp.cond)]
+                        inner_ok = len(adds) == len(e.extra["paths"]) == 1
+            if not (ok and inner_ok):
+                bad.append("not every target of every instruction is collected")
+        elif v is not None and v[0] == "comp":
+            if not (len(v[3]) == 2 and v[3][0][0] == circ and not v[3][0][1] and not v[3][1][1] and "extract_instruction_targets" in show(v[3][1][0])):
+                bad.append("not every target of every instruction is collected")
+        else:
+            bad.append(f"result is {show(p.value)[:80] if p.value else None}")
+    if not ps:
+        raise AnalysisError("extract_all_targets: no return path")
+    rep.check(not bad, "C14.N6", "extract_all_targets", g.loc, found="; ".join(sorted(set(bad))) or "sorted(set of all targets of all instructions)", required="all targets of all instructions, sorted, unique",
+              what="idle noise is not placed on every qubit of the circuit: " + "; ".join(sorted(set(bad))), detail="all-targets")
